@@ -86,11 +86,16 @@ func preBlock(fw *formatWriter, source []byte, cursor *commonmark.Cursor) (child
 	switch k := curr.Kind(); k {
 	case commonmark.ParagraphKind:
 		if !isFirstParagraph(cursor) {
-			fw.s("\n")
+			blockBreak(fw, cursor)
 		}
 		return "", true
 	case commonmark.ThematicBreakKind:
-		if fw.hasWritten {
+		if parent := cursor.ParentBlock(); parent != nil && parent.Kind() == commonmark.ListItemKind && parent.IsTightList() {
+			// No blank line can precede the break:
+			// "---" directly under a paragraph would be a setext heading underline.
+			blockBreak(fw, cursor)
+			fw.s("***\n")
+		} else if fw.hasWritten {
 			fw.s("\n---\n\n")
 		} else {
 			// Disambiguate from front matter.
@@ -98,10 +103,10 @@ func preBlock(fw *formatWriter, source []byte, cursor *commonmark.Cursor) (child
 		}
 		return "", true
 	case commonmark.ListKind:
-		if fw.hasWritten && curr.IsTightList() {
+		if curr.IsTightList() {
 			// Individual list items won't contain a blank line,
 			// so add them beforehand.
-			fw.s("\n")
+			blockBreak(fw, cursor)
 		}
 		return "", true
 	case commonmark.ListItemKind:
@@ -118,9 +123,7 @@ func preBlock(fw *formatWriter, source []byte, cursor *commonmark.Cursor) (child
 		}
 		return childrenIndent, true
 	case commonmark.LinkReferenceDefinitionKind:
-		if fw.hasWritten {
-			fw.s("\n")
-		}
+		blockBreak(fw, cursor)
 		fw.s("[")
 		fw.s(curr.Child(0).Inline().LinkReference())
 		fw.s("]: ")
@@ -133,24 +136,18 @@ func preBlock(fw *formatWriter, source []byte, cursor *commonmark.Cursor) (child
 		fw.s("\n")
 		return "", false
 	case commonmark.BlockQuoteKind:
-		if fw.hasWritten {
-			fw.s("\n")
-		}
+		blockBreak(fw, cursor)
 		fw.s("> ")
 		return "> ", true
 	case commonmark.IndentedCodeBlockKind:
-		if fw.hasWritten {
-			fw.s("\n")
-		}
+		blockBreak(fw, cursor)
 		for i, n := 0, codeFenceLength(source, curr); i < n; i++ {
 			fw.s("`")
 		}
 		fw.s("\n")
 		return "", true
 	case commonmark.FencedCodeBlockKind:
-		if fw.hasWritten {
-			fw.s("\n")
-		}
+		blockBreak(fw, cursor)
 		c := [1]byte{codeFenceChar(source, curr)}
 		for i, n := 0, codeFenceLength(source, curr); i < n; i++ {
 			fw.b(c[:])
@@ -161,22 +158,32 @@ func preBlock(fw *formatWriter, source []byte, cursor *commonmark.Cursor) (child
 		fw.s("\n")
 		return "", true
 	case commonmark.ATXHeadingKind:
-		if fw.hasWritten {
-			fw.s("\n")
-		}
+		blockBreak(fw, cursor)
 		for i, n := 0, curr.HeadingLevel(); i < n; i++ {
 			fw.s("#")
 		}
 		fw.s(" ")
 		return "", true
 	case commonmark.SetextHeadingKind, commonmark.HTMLBlockKind:
-		if fw.hasWritten {
-			fw.s("\n")
-		}
+		blockBreak(fw, cursor)
 		return "", true
 	default:
 		return "", false
 	}
+}
+
+// blockBreak separates a block from what was written before it:
+// it ends the current line or, if the line has ended already, leaves a blank line.
+// Inside an item of a tight list it never leaves a blank line,
+// because that would make the list loose.
+func blockBreak(fw *formatWriter, cursor *commonmark.Cursor) {
+	if !fw.hasWritten {
+		return
+	}
+	if parent := cursor.ParentBlock(); !fw.startedLine && parent != nil && parent.Kind() == commonmark.ListItemKind && parent.IsTightList() {
+		return
+	}
+	fw.s("\n")
 }
 
 func isFirstParagraph(cursor *commonmark.Cursor) bool {
@@ -201,7 +208,11 @@ func postBlock(fw *formatWriter, source []byte, cursor *commonmark.Cursor) {
 			fw.s("\n")
 		}
 	case commonmark.ListItemKind:
-		fw.s("\n")
+		if fw.startedLine || !b.IsTightList() {
+			// An item of a tight list that ends in a nested block
+			// has ended its last line already.
+			fw.s("\n")
+		}
 	case commonmark.IndentedCodeBlockKind, commonmark.FencedCodeBlockKind:
 		if fw.startedLine {
 			// The content ended without a line ending (end of input).
